@@ -7,14 +7,21 @@ import (
 	"context"
 	"fmt"
 	"hash/fnv"
+	"net/http"
+	"net/http/httptest"
+	"os"
+	"path/filepath"
 	"sort"
 	"strings"
+	"sync"
 
 	"deps.dev/util/resolve"
 	"deps.dev/util/resolve/schema"
 	"deps.dev/util/semver"
 	"github.com/google/osv-scalibr/extractor"
 	"github.com/google/osv-scalibr/guidedremediation"
+	"github.com/google/osv-scalibr/guidedremediation/options"
+	"github.com/google/osv-scalibr/guidedremediation/strategy"
 	"github.com/google/osv-scalibr/guidedremediation/upgrade"
 	"github.com/ossf/osv-schema/bindings/go/osvschema"
 )
@@ -106,7 +113,24 @@ type VulnSpec struct {
 	Fixed      int
 	Last       int // last_affected rank, -1 = unused
 	Explicit   []int
+	Sev        []int `json:",omitempty"` // indices into SevTable: the record's severities …
+	SevInAff   bool  `json:",omitempty"` // … written on the affected[] entry instead of the top level
+	Also       string `json:",omitempty"` // a second package the record affects (same ranges): one vulnerability, two packages
 }
+
+// SevTable / SevTenths: CVSS vectors and round(10 * published base score); -1000 = not a CVSS vector (skipped by the filter).
+// The scores are those of the CVSS calculators for these vectors, not taken from the code under test.
+var SevTable = []osvschema.Severity{
+	{Type: "CVSS_V3", Score: "CVSS:3.1/AV:N/AC:L/PR:N/UI:N/S:U/C:H/I:H/A:H"},
+	{Type: "CVSS_V3", Score: "CVSS:3.1/AV:N/AC:L/PR:N/UI:N/S:U/C:N/I:N/A:H"},
+	{Type: "CVSS_V3", Score: "CVSS:3.0/AV:N/AC:L/PR:N/UI:R/S:C/C:L/I:L/A:N"},
+	{Type: "CVSS_V3", Score: "CVSS:3.1/AV:L/AC:H/PR:L/UI:N/S:U/C:L/I:N/A:N"},
+	{Type: "CVSS_V2", Score: "AV:N/AC:L/Au:N/C:P/I:P/A:P"},
+	{Type: "CVSS_V3", Score: "garbage"},
+	{Type: "CVSS_V3", Score: "CVSS:3.1/AV:N/AC:L/PR:N/UI:N/S:U/C:N/I:N/A:N"},
+	{Type: "CVSS_V3", Score: "CVSS:3.1/AV:N/AC:H/PR:N/UI:R/S:U/C:L/I:L/A:N"},
+}
+var SevTenths = []int{98, 75, 61, 25, 75, -1000, 0, 42}
 
 // OSV builds the record for an ecosystem ("Maven" / "npm") over a rank table.
 func (s VulnSpec) OSV(eco string, table []string) *osvschema.Vulnerability {
@@ -131,7 +155,21 @@ func (s VulnSpec) OSV(eco string, table []string) *osvschema.Vulnerability {
 			a.Ranges[0].Type = osvschema.RangeSemVer
 		}
 	}
-	return &osvschema.Vulnerability{ID: s.ID, Affected: []osvschema.Affected{a}}
+	o := &osvschema.Vulnerability{ID: s.ID}
+	for _, i := range s.Sev {
+		if s.SevInAff {
+			a.Severity = append(a.Severity, SevTable[i])
+		} else {
+			o.Severity = append(o.Severity, SevTable[i])
+		}
+	}
+	o.Affected = []osvschema.Affected{a}
+	if s.Also != "" {
+		b := a
+		b.Package.Name = s.Also
+		o.Affected = append(o.Affected, b)
+	}
+	return o
 }
 
 // Affects evaluates a spec on a rank with the real predicate.
@@ -158,7 +196,11 @@ func ConfigFor(seed string, levels map[string]int) upgrade.Config {
 	if !textual {
 		cfg := upgrade.NewConfig()
 		for k, v := range levels {
-			cfg.Set(k, upgrade.Level(v))
+			if k == "" {
+				cfg.SetDefault(upgrade.Level(v))
+			} else {
+				cfg.Set(k, upgrade.Level(v))
+			}
 		}
 		return cfg
 	}
@@ -240,3 +282,155 @@ func CompareAgrees(vk resolve.VersionKey, vs []*semver.Version) bool {
 	}
 	return true
 }
+
+// Registry is an in-process Maven repository (plain HTTP, the layout of Maven Central): <url>/<group/as/path>/<artifact>/<version>/
+// <artifact>-<version>.pom.  Set replaces what it serves; a coordinate it does not hold is a 404.  Requests are counted per path.
+type Registry struct {
+	URL  string
+	mu   sync.Mutex
+	poms map[string]string // "group:artifact:version" -> pom.xml text
+	Hits map[string]int
+	srv  *httptest.Server
+}
+
+// NewRegistry starts the server (closed with the process).
+func NewRegistry() *Registry {
+	r := &Registry{poms: map[string]string{}, Hits: map[string]int{}}
+	r.srv = httptest.NewServer(http.HandlerFunc(func(w http.ResponseWriter, q *http.Request) {
+		r.mu.Lock()
+		defer r.mu.Unlock()
+		r.Hits[q.URL.Path]++
+		for gav, pom := range r.poms {
+			p := strings.Split(gav, ":")
+			if q.URL.Path == "/"+strings.ReplaceAll(p[0], ".", "/")+"/"+p[1]+"/"+p[2]+"/"+p[1]+"-"+p[2]+".pom" {
+				w.Header().Set("Content-Type", "application/xml")
+				fmt.Fprint(w, pom)
+				return
+			}
+		}
+		http.NotFound(w, q)
+	}))
+	r.URL = r.srv.URL
+	return r
+}
+
+// Set replaces the poms served.
+func (r *Registry) Set(poms map[string]string) {
+	r.mu.Lock()
+	defer r.mu.Unlock()
+	r.poms = poms
+	r.Hits = map[string]int{}
+}
+
+// EntryPoint runs one misuse / boundary case of the public entry points FixVulns and Update (kind k, see lean/Scalibr/Spec/EntryPoints.lean)
+// in a fresh directory under scratch and reports r=err|ok, errs=<number of resolve errors in the result>, same=<the manifest file, if
+// the case has one, is byte-identical afterwards>.
+func EntryPoint(k int, scratch string) string {
+	dir, err := os.MkdirTemp(scratch, "ep")
+	if err != nil {
+		panic(err)
+	}
+	defer os.RemoveAll(dir)
+	npmOK := "{\n  \"name\": \"root\",\n  \"version\": \"1.0.0\",\n  \"dependencies\": {\n    \"lib\": \"^1.0.0\"\n  }\n}\n"
+	pomOK := "<project>\n  <modelVersion>4.0.0</modelVersion>\n  <groupId>root.g</groupId>\n  <artifactId>root-a</artifactId>\n  <version>1.0</version>\n  <dependencies>\n    <dependency>\n      <groupId>g</groupId>\n      <artifactId>lib</artifactId>\n      <version>1.0.0</version>\n    </dependency>\n  </dependencies>\n</project>\n"
+	write := func(name, content string) string {
+		p := filepath.Join(dir, name)
+		if err := os.WriteFile(p, []byte(content), 0o644); err != nil {
+			panic(err)
+		}
+		return p
+	}
+	npmCl, err := Client([]Pkg{{Name: "lib", Versions: []string{"1.0.0", "1.0.1", "2.0.0"}}}, resolve.NPM)
+	if err != nil {
+		panic(err)
+	}
+	mvnCl, err := Client([]Pkg{{Name: "g:lib", Versions: []string{"1.0.0", "1.0.1", "2.0.0"}}}, resolve.Maven)
+	if err != nil {
+		panic(err)
+	}
+	npmV := []*osvschema.Vulnerability{VulnSpec{ID: "V-1", Pkg: "lib", Introduced: -1, Fixed: 1, Last: -1}.OSV("npm", []string{"1.0.0", "1.0.1", "2.0.0"})}
+	mvnV := []*osvschema.Vulnerability{VulnSpec{ID: "V-1", Pkg: "g:lib", Introduced: -1, Fixed: 1, Last: -1}.OSV("Maven", []string{"1.0.0", "1.0.1", "2.0.0"})}
+	fix := func(o options.FixVulnsOptions, cl resolve.Client, vs []*osvschema.Vulnerability) (int, error) {
+		o.ResolveClient, o.MatcherClient = cl, Matcher(vs)
+		o.DefaultRepository = "http://127.0.0.1:1/"
+		o.RemediationOptions = options.RemediationOptions{DevDeps: true, MaxDepth: -1, UpgradeConfig: upgrade.NewConfig()}
+		res, err := guidedremediation.FixVulns(o)
+		return len(res.Errors), err
+	}
+	upd := func(o options.UpdateOptions) (int, error) {
+		o.ResolveClient = mvnCl
+		o.DefaultRepository = "http://127.0.0.1:1/"
+		o.UpgradeConfig = upgrade.NewConfig()
+		_, err := guidedremediation.Update(o)
+		return 0, err
+	}
+	path, content := "", ""
+	var n int
+	switch k {
+	case 0:
+		n, err = fix(options.FixVulnsOptions{}, npmCl, npmV)
+	case 1:
+		path, content = write("build.gradle", "dependencies {}\n"), "dependencies {}\n"
+		n, err = fix(options.FixVulnsOptions{Manifest: path}, npmCl, npmV)
+	case 2:
+		path, content = write("package-lock.json", "{}\n"), "{}\n"
+		n, err = fix(options.FixVulnsOptions{Lockfile: path}, npmCl, npmV)
+	case 3:
+		n, err = fix(options.FixVulnsOptions{Manifest: filepath.Join(dir, "missing", "package.json")}, npmCl, npmV)
+	case 4:
+		path, content = write("package.json", "{ \"name\": \"root\", \"dependencies\": { \"lib\": \n"), "{ \"name\": \"root\", \"dependencies\": { \"lib\": \n"
+		n, err = fix(options.FixVulnsOptions{Manifest: path}, npmCl, npmV)
+	case 5:
+		path, content = write("pom.xml", "<project><dependencies><dependency>\n"), "<project><dependencies><dependency>\n"
+		n, err = fix(options.FixVulnsOptions{Manifest: path}, mvnCl, mvnV)
+	case 6:
+		path = write("pom.xml", pomOK)
+		n, err = fix(options.FixVulnsOptions{Manifest: path, Strategy: strategy.StrategyOverride}, mvnCl, mvnV)
+	case 7:
+		path = write("package.json", npmOK)
+		n, err = fix(options.FixVulnsOptions{Manifest: path, Strategy: strategy.StrategyRelax}, npmCl, npmV)
+	case 8:
+		path, content = write("package.json", npmOK), npmOK
+		n, err = fix(options.FixVulnsOptions{Manifest: path, Strategy: strategy.Strategy("bogus")}, npmCl, npmV)
+	case 9:
+		n, err = upd(options.UpdateOptions{})
+	case 10:
+		path, content = write("package.json", npmOK), npmOK
+		n, err = upd(options.UpdateOptions{Manifest: path})
+	case 11:
+		n, err = upd(options.UpdateOptions{Manifest: filepath.Join(dir, "missing", "pom.xml")})
+	case 12:
+		path = write("pom.xml", pomOK)
+		n, err = upd(options.UpdateOptions{Manifest: path})
+	case 13: // a requirement on a package the registry does not know
+		path, content = write("package.json", strings.Replace(npmOK, "\"lib\": \"^1.0.0\"", "\"lib\": \"^1.0.0\",\n    \"nowhere\": \"^1.0.0\"", 1)), ""
+		n, err = fix(options.FixVulnsOptions{Manifest: path}, npmCl, npmV)
+	case 14:
+		path, content = write("pom.xml", pomOK), pomOK
+		n, err = fix(options.FixVulnsOptions{Manifest: path, Lockfile: filepath.Join(dir, "package-lock.json")}, mvnCl, mvnV)
+	case 15: // a requirement no known version satisfies
+		path, content = write("package.json", strings.Replace(npmOK, "^1.0.0", "^7.0.0", 1)), ""
+		n, err = fix(options.FixVulnsOptions{Manifest: path}, npmCl, npmV)
+	case 16: // upper-case file name: the switch lower-cases it
+		path = write("POM.XML", pomOK)
+		n, err = fix(options.FixVulnsOptions{Manifest: path}, mvnCl, mvnV)
+	default:
+		return "bad-case"
+	}
+	same := "-"
+	if content != "" {
+		b, rerr := os.ReadFile(path)
+		same = "0"
+		if rerr == nil && string(b) == content {
+			same = "1"
+		}
+	}
+	r := "ok"
+	if err != nil {
+		r = "err"
+	}
+	return fmt.Sprintf("r=ok outcome=%s errs=%d same=%s", r, n, same)
+}
+
+// EntryPointKinds is the number of kinds EntryPoint knows.
+const EntryPointKinds = 17
